@@ -84,9 +84,13 @@ def run(ctx, facts):
         C04._smh2(ctx, facts)
     C04._histo(ctx, facts, SMH + "sketch", "smh")
     C04._exit_aupper(ctx, facts, SMH + "sketch")
+    ctx.rule("STEP", "the draw counter starts at 0 and advances by exactly one per iteration of the draw loop, after its last use in the "
+                     "iteration and on every path to the next one (or it is the variable of `for j in 0..N`): the j-th draw carries level j")
+    C04.counter_step(ctx, facts, SMH + "sketch")
     if has2:
         C04._histo(ctx, facts, SMH2 + "sketch", "smh2")
         C04._exit_aupper(ctx, facts, SMH2 + "sketch")
+        C04.counter_step(ctx, facts, SMH2 + "sketch")
         C13.require_verified_reset(ctx, facts, [C13.FY], "RESETBEFORE")
         C04._resetbefore(ctx, facts, SMH2 + "sketch")
     C04._counter(ctx, facts)
